@@ -3,6 +3,9 @@ package c13
 
 import (
 	"fmt"
+	"math"
+	"math/bits"
+	"sort"
 	"testing"
 
 	"github.com/openacid/low/bitmap"
@@ -14,9 +17,20 @@ import (
 
 func TestMain(m *testing.M) { vk.Main(m, "C13") }
 
+// Sparse describes a bitmap of N words (1 <= N <= 2^25) compactly: word Idx[k] is W[k], every other word is 0.
+// It is realised on the process-wide 2^25-word array of gen.UseMax cut to N words, so that a bitmap of millions
+// of words costs nothing to write down and to set up. Indexes >= N are foreign words BEHIND the end of the
+// bitmap (inside the capacity of the slice): they are not part of the bitmap.
+type Sparse struct {
+	N   int      `json:"n"`
+	Idx []int32  `json:"idx"` // strictly ascending
+	W   vk.Words `json:"w"`
+}
+
 type Case struct {
 	Max    int        `json:"max,omitempty"` // v+1: the maximum bitmap of exactly 2^25 words = 2^31 bits, description v (gen.UseMax); Words is empty
 	Words  vk.Words   `json:"words"`
+	Sparse *Sparse    `json:"sparse,omitempty"` // when set: the bitmap (Words is empty)
 	Style  string     `json:"style,omitempty"`
 	Ranges [][2]int32 `json:"ranges"` // (i, end)
 }
@@ -25,69 +39,155 @@ var checker = &vk.Checker[Case]{
 	ID: "C13",
 	Rule: "bitmaps with runs of zero words between ones and ones at offsets 0 and 63 (islands/tail/palette/sparse styles, <= 12 words, thorough <= 300) x ranges 0<=i<=end<=64*len drawn inside one word, across several, on word boundaries, empty; " +
 		"NextOne (i inside the bitmap) and PrevOne (end>=1) against a naive scan. Grid: all 216 three-word bitmaps over {0,1,1<<31,1<<63,1|1<<63,^0} x ALL (i,end). " +
-		"Also the MAXIMUM bitmap - exactly 2^25 words = 2^31 bits, the largest one int32 positions address (three sparse descriptions, oracle from the description): ranges ending at 2^31-1, empty ranges at the top, scans across 2^24 zero words and scans that run off the end. " +
+		"SIZES WITHOUT HOLES: 1 case in 10 is a bitmap of 13..2048 (thorough 8192) words, 1 in 20 a sparsely described one of 2^12..2^19 (thorough 2^23) words, both with a log-uniform word count; their content alternates zero runs of log-uniform length (1 word .. the whole bitmap) with short stretches of boundary/single-bit/dense words ('runs'), " +
+		"or puts 16..256 non-zero words at uniformly random indexes ('comb'); their ranges are anchored on that content (from the end of one non-zero word over the zero run to/into/just short of the next one, from the middle of a run, aligned and unaligned) plus ranges of log-uniform length at uniform / near-start / near-end positions. " +
+		"A deterministic sweep covers every octave of the word count from 4 to 2^25 words: sizes 2^k-1, 2^k, 2^k+1 and pseudo-random sizes inside the octave (explicit words up to 2^13+1, sparse descriptions from 2^12 to 2^25; those above 2^20 words run last in the process), the random sizes of 128..16384 words under every GOMAXPROCS setting in the process that varies it. " +
+		"Also the MAXIMUM bitmap - exactly 2^25 words = 2^31 bits, the largest one int32 positions address (three fixed sparse descriptions plus the sweep's, oracle from the description): ranges ending at 2^31-1, empty ranges at the top, scans across 2^24 zero words and scans that run off the end. " +
+		"The argument reaches the library as a fresh exact-size copy, as a reused buffer with canaries in its spare capacity, or carved out of the middle of a larger array full of foreign 1-bits; it (and what surrounds it) must read the same afterwards. " +
 		"Non-trivial (per case): some range spans >= 2 words and its answer is not in the first word probed, or it has no answer and >= 1 zero word is skipped. Grid ranges are distinct by construction; rapid cases hashed when the bitmap has > 3 words.",
 	Check:    check,
 	Classify: classify,
-	Hashed:   func(c Case) bool { return len(c.Words) > 3 || c.Max > 0 },
+	Hashed:   func(c Case) bool { return len(c.Words) > 3 || c.Max > 0 || c.Sparse != nil },
 }
 
-func naiveNext(w []uint64, i, end int32) int32 {
+// ---------------------------------------------------------------- oracles
+
+// oracle answers both questions of the statement for one bitmap (positions as int64: 64*len is 2^31 for the largest bitmap).
+type oracle interface {
+	next(i, end int64) int64 // smallest set position in [i, end), or -1
+	prev(i, end int64) int64 // largest set position in [i, end), or -1
+}
+
+// naive looks at every bit of the range in turn.
+type naive []uint64
+
+func (w naive) next(i, end int64) int64 {
 	for p := i; p < end; p++ {
-		if w[p/64]>>(uint(p)%64)&1 == 1 {
+		if w[p/64]>>(uint64(p)%64)&1 == 1 {
 			return p
 		}
 	}
 	return -1
 }
 
-func naivePrev(w []uint64, i, end int32) int32 {
+func (w naive) prev(i, end int64) int64 {
 	for p := end - 1; p >= i; p-- {
-		if w[p/64]>>(uint(p)%64)&1 == 1 {
+		if w[p/64]>>(uint64(p)%64)&1 == 1 {
 			return p
 		}
 	}
 	return -1
 }
 
-func checkRange1(orig, w []uint64, i, end int32) *vk.Failure {
-	nbits := int32(64 * len(w))
-	if i < 0 || i > end || end > nbits {
+// onesList is the ascending list of the set positions of a bitmap, collected bit by bit once per case; a
+// question is then a search in that list. Used for bitmaps of more than 12 words, where looking at every bit
+// of every range again would dominate the run (TestGrid cross-checks it against naive first).
+type onesList []int32
+
+func (o onesList) next(i, end int64) int64 {
+	k := sort.Search(len(o), func(k int) bool { return int64(o[k]) >= i })
+	if k < len(o) && int64(o[k]) < end {
+		return int64(o[k])
+	}
+	return -1
+}
+
+func (o onesList) prev(i, end int64) int64 {
+	k := sort.Search(len(o), func(k int) bool { return int64(o[k]) >= end }) // o[k-1] is the last one before end
+	if k > 0 && int64(o[k-1]) >= i {
+		return int64(o[k-1])
+	}
+	return -1
+}
+
+func appendOnes(o onesList, wordIdx int, x uint64) onesList {
+	for b := 0; b < 64; b++ {
+		if x>>uint(b)&1 == 1 {
+			o = append(o, int32(wordIdx*64+b))
+		}
+	}
+	return o
+}
+
+func onesOfWords(w []uint64) onesList {
+	o := onesList{}
+	for k, x := range w {
+		o = appendOnes(o, k, x)
+	}
+	return o
+}
+
+func oracleOfWords(w []uint64) oracle {
+	if len(w) <= 12 {
+		return naive(w)
+	}
+	return onesOfWords(w)
+}
+
+func (s *Sparse) valid() bool {
+	if s == nil || s.N < 1 || s.N > gen.MaxWords || len(s.Idx) != len(s.W) {
+		return false
+	}
+	for k, x := range s.Idx {
+		if x < 0 || int(x) >= gen.MaxWords || (k > 0 && x <= s.Idx[k-1]) {
+			return false
+		}
+	}
+	return true
+}
+
+// ones lists the set positions of the bitmap proper (words below N).
+func (s *Sparse) ones() onesList {
+	o := onesList{}
+	for k, x := range s.Idx {
+		if int(x) < s.N {
+			o = appendOnes(o, int(x), s.W[k])
+		}
+	}
+	return o
+}
+
+// ---------------------------------------------------------------- one range
+
+// callBoth asks the library both questions about one range (where the statement defines them) and compares.
+func callBoth(desc string, o oracle, w []uint64, i, end int32) *vk.Failure {
+	nbits := int64(64) * int64(len(w))
+	if i < 0 || i > end || int64(end) > nbits {
 		return nil // outside the stated domain (never generated)
 	}
-	if i < nbits {
-		want := naiveNext(orig, i, end)
-		var got int32
-		if f := vk.Try(fmt.Sprintf("NextOne(i=%d,end=%d)", i, end), func() { got = bitmap.NextOne(w, i, end) }); f != nil {
-			return f
-		}
-		if got != want {
-			return vk.Failf("nextone", "NextOne(bm, %d, %d) = %d, want %d", i, end, got, want)
-		}
+	if int64(i) >= nbits {
+		return nil // i == end == 64*len: i is not inside the bitmap (an implementation may index with it)
 	}
-	if end >= 1 && i < nbits { // (i == end == 64*len: i is not inside the bitmap; an implementation may index with it)
-		want := naivePrev(orig, i, end)
-		var got int32
-		if f := vk.Try(fmt.Sprintf("PrevOne(i=%d,end=%d)", i, end), func() { got = bitmap.PrevOne(w, i, end) }); f != nil {
+	want := o.next(int64(i), int64(end))
+	var got int32
+	if f := vk.TryF(func() string { return fmt.Sprintf("%sNextOne(i=%d,end=%d)", desc, i, end) }, func() { got = bitmap.NextOne(w, i, end) }); f != nil {
+		return f
+	}
+	if int64(got) != want {
+		return vk.Failf("nextone", "%sNextOne(bm, %d, %d) = %d, want %d", desc, i, end, got, want)
+	}
+	if end >= 1 {
+		want := o.prev(int64(i), int64(end))
+		if f := vk.TryF(func() string { return fmt.Sprintf("%sPrevOne(i=%d,end=%d)", desc, i, end) }, func() { got = bitmap.PrevOne(w, i, end) }); f != nil {
 			return f
 		}
-		if got != want {
-			return vk.Failf("prevone", "PrevOne(bm, %d, %d) = %d, want %d", i, end, got, want)
+		if int64(got) != want {
+			return vk.Failf("prevone", "%sPrevOne(bm, %d, %d) = %d, want %d", desc, i, end, got, want)
 		}
 	}
 	return nil
 }
 
-func rangeNontrivial(w []uint64, i, end int32) bool {
+func rangeNontrivial(o oracle, i, end int32) bool {
 	if end <= i || (end-1)/64 == i/64 {
 		return false
 	}
-	n := naiveNext(w, i, end)
-	if n >= 0 && n/64 != i/64 {
+	n := o.next(int64(i), int64(end))
+	if n >= 0 && n/64 != int64(i/64) {
 		return true
 	}
-	p := naivePrev(w, i, end)
-	if p >= 0 && p/64 != (end-1)/64 {
+	p := o.prev(int64(i), int64(end))
+	if p >= 0 && p/64 != int64((end-1)/64) {
 		return true
 	}
 	if n < 0 { // nothing found: at least one whole zero word was stepped over
@@ -95,6 +195,8 @@ func rangeNontrivial(w []uint64, i, end int32) bool {
 	}
 	return false
 }
+
+// ---------------------------------------------------------------- the three kinds of case
 
 // checkMax: ranges on the largest bitmap whose positions fit an int32 (sparse oracle from its description).
 func checkMax(v int, ranges [][2]int32) *vk.Failure {
@@ -149,12 +251,45 @@ func maxRanges(v int) [][2]int32 {
 	return rs
 }
 
+// checkSparse: a sparsely described bitmap of N words on the shared array (same address for every such case,
+// other content each time; foreign words may sit right behind its end).
+func checkSparse(s *Sparse, ranges [][2]int32) *vk.Failure {
+	if !s.valid() {
+		return nil
+	}
+	set := make(map[int]uint64, len(s.Idx))
+	for k, x := range s.Idx {
+		if s.W[k] != 0 {
+			set[int(x)] = s.W[k]
+		}
+	}
+	w := gen.UseMaxCustom(set)[:s.N]
+	o := s.ones()
+	desc := fmt.Sprintf("%d-word bitmap (sparse description): ", s.N)
+	for _, r := range ranges {
+		if f := callBoth(desc, o, w, r[0], r[1]); f != nil {
+			return f
+		}
+	}
+	if k, bad := gen.MaxBitmapDamage(); bad {
+		return vk.Failf("mutates", "word %d of the %d-word bitmap (or of the array behind it) was modified", k, s.N)
+	}
+	return nil
+}
+
 func check(c Case) *vk.Failure {
 	if c.Max > 0 {
 		return checkMax(c.Max-1, c.Ranges)
 	}
+	if c.Sparse != nil {
+		return checkSparse(c.Sparse, c.Ranges)
+	}
+	if len(c.Words) == 0 {
+		return nil // no position is inside an empty bitmap
+	}
+	o, sum := oracleOfWords(c.Words), vk.SumU64(c.Words)
 	for _, r := range c.Ranges {
-		if f := checkRange(c.Words, r[0], r[1]); f != nil {
+		if f := checkRange(c.Words, o, sum, r[0], r[1]); f != nil {
 			return f
 		}
 	}
@@ -163,13 +298,31 @@ func check(c Case) *vk.Failure {
 
 var scratch vk.Scratch
 
-func checkRange(orig []uint64, i, end int32) *vk.Failure {
-	w := append(make([]uint64, 0, len(orig)), orig...) // private copy for the code under test ...
-	reused := scratch.Reuse(vk.SumU64(orig) + uint64(i)*7 + uint64(end))
-	if reused {
-		w = scratch.U64(orig) // ... or a reused buffer: same address as earlier calls, other content
+const carvePad = 3
+
+func foreignWord(k int) uint64 { return 0xA5C3A5C3A5C3A5C3 ^ uint64(k)*0x0101010101010101 | 1<<63 | 1 }
+
+// checkRange hands the bitmap over in one of three shapes (a function of the case, so that a replay takes the same one).
+func checkRange(orig []uint64, o oracle, sum uint64, i, end int32) *vk.Failure {
+	cs := sum + uint64(i)*7 + uint64(end)
+	reused := scratch.Reuse(cs)
+	var w, around []uint64
+	switch {
+	case reused:
+		w = scratch.U64(orig) // a reused buffer: same address as earlier calls, other content, canaries in the spare capacity
+	case vk.Mix(cs^0xca57ed)&3 == 0:
+		// carved out of the middle of a larger array: foreign words with 1-bits at offsets 0 and 63 right before
+		// the first word and right behind the last one (the latter inside the capacity of the slice)
+		around = make([]uint64, len(orig)+2*carvePad)
+		for k := range around {
+			around[k] = foreignWord(k)
+		}
+		copy(around[carvePad:], orig)
+		w = around[carvePad : carvePad+len(orig)]
+	default:
+		w = append(make([]uint64, 0, len(orig)), orig...) // private exact-size copy
 	}
-	if f := checkRange1(orig, w, i, end); f != nil {
+	if f := callBoth("", o, w, i, end); f != nil {
 		return f
 	}
 	for k := range orig {
@@ -182,29 +335,70 @@ func checkRange(orig []uint64, i, end int32) *vk.Failure {
 			return vk.Failf("argument-spare-capacity-written", "NextOne/PrevOne(%d,%d): %s", i, end, msg)
 		}
 	}
+	for k := range around {
+		if (k < carvePad || k >= carvePad+len(orig)) && around[k] != foreignWord(k) {
+			return vk.Failf("writes-outside-argument", "NextOne/PrevOne(%d,%d): word %d of the array the bitmap was cut from (the bitmap is words %d..%d of it) was modified", i, end, k, carvePad, carvePad+len(orig)-1)
+		}
+	}
 	return nil
+}
+
+func sizeLabel(n int) string {
+	switch {
+	case n <= 3:
+		return "words:1-3"
+	case n <= 12:
+		return "words:4-12"
+	}
+	k := bits.Len(uint(n)) - 1
+	if n == 1<<25 {
+		return "words:2^25"
+	}
+	return fmt.Sprintf("words:2^%d..2^%d-1", k, k+1)
 }
 
 func classify(c Case) (bool, []string) {
 	if c.Max > 0 {
-		return true, []string{"style:maximum-bitmap(2^25 words)"}
+		return true, []string{"style:maximum-bitmap(2^25 words)", "words:2^25"}
 	}
+	var o oracle
+	n := len(c.Words)
+	if c.Sparse != nil {
+		if !c.Sparse.valid() {
+			return false, []string{"invalid-sparse-description"}
+		}
+		o, n = c.Sparse.ones(), c.Sparse.N
+	} else if n == 0 {
+		return false, []string{"empty-bitmap"}
+	} else {
+		o = oracleOfWords(c.Words)
+	}
+	nbits := int64(64) * int64(n)
 	nt := false
-	multi, empty := 0, 0
+	multi, empty, long := 0, 0, 0
 	for _, r := range c.Ranges {
-		if rangeNontrivial(c.Words, r[0], r[1]) {
+		if r[0] < 0 || r[0] > r[1] || int64(r[1]) > nbits {
+			continue
+		}
+		if !nt && rangeNontrivial(o, r[0], r[1]) {
 			nt = true
 		}
 		if r[1] > r[0] && (r[1]-1)/64 != r[0]/64 {
 			multi++
+			if (r[1]-1)/64-r[0]/64 >= 64 {
+				long++
+			}
 		}
 		if r[0] == r[1] {
 			empty++
 		}
 	}
-	labels := []string{"style:" + c.Style}
+	labels := []string{"style:" + c.Style, sizeLabel(n)}
 	if multi > 0 {
 		labels = append(labels, "has-multiword-range")
+	}
+	if long > 0 {
+		labels = append(labels, "has-range-over-64-or-more-words")
 	}
 	if empty > 0 {
 		labels = append(labels, "has-empty-range")
@@ -215,7 +409,258 @@ func classify(c Case) (bool, []string) {
 	return nt, labels
 }
 
+// ---------------------------------------------------------------- content and ranges as pure functions of a key
+
+// rng is splitmix64 in counter mode: everything derived from it is a pure function of the key (which is a rapid
+// draw in TestProp and a function of size and VERIF_SEED in the sweeps); the case stores what was derived.
+type rng struct{ x uint64 }
+
+func (r *rng) u64() uint64 { r.x += 0x9e3779b97f4a7c15; return vk.Mix(r.x) }
+func (r *rng) n(n int) int { return int(r.u64() % uint64(n)) }
+
+// logU is log-uniform on [1, max]: the octave is uniform, then the value inside the octave.
+func (r *rng) logU(max int) int {
+	if max <= 1 {
+		return 1
+	}
+	lo := 1 << r.n(bits.Len(uint(max)))
+	hi := min(2*lo-1, max)
+	return lo + r.n(hi-lo+1)
+}
+
+func (r *rng) word() uint64 {
+	for {
+		var w uint64
+		switch r.n(11) {
+		case 0:
+			w = 1
+		case 1:
+			w = 1 << 63
+		case 2:
+			w = 1 | 1<<63
+		case 3:
+			w = ^uint64(0)
+		case 4, 5:
+			w = 1 << uint(r.n(64))
+		case 6:
+			w = 1<<uint(r.n(64)) | 1<<uint(r.n(64))
+		case 7:
+			w = r.u64() & r.u64() & r.u64()
+		case 8:
+			w = 1 << 31
+		default:
+			w = r.u64()
+		}
+		if w != 0 {
+			return w
+		}
+	}
+}
+
+// layoutRuns: zero runs of log-uniform length (1 .. n words) alternate with stretches of 1..6 non-zero words;
+// at most maxSet non-zero words (what follows stays zero). About half of the layouts start with a zero run.
+func layoutRuns(r *rng, n, maxSet int) (idx []int32, w []uint64) {
+	pos := 0
+	if r.n(2) == 0 {
+		pos = r.logU(n) - 1
+	}
+	for pos < n && len(idx) < maxSet {
+		s := 1
+		if r.n(2) == 0 {
+			s = r.logU(6)
+		}
+		for j := 0; j < s && pos < n && len(idx) < maxSet; j++ {
+			idx, w = append(idx, int32(pos)), append(w, r.word())
+			pos++
+		}
+		pos += r.logU(n)
+	}
+	if r.n(3) == 0 && (len(idx) == 0 || int(idx[len(idx)-1]) < n-1) { // a one in the very last word
+		lw := r.word()
+		if r.n(2) == 0 {
+			lw = 1 << 63
+		}
+		idx, w = append(idx, int32(n-1)), append(w, lw)
+	}
+	return idx, w
+}
+
+// layoutComb: k non-zero words at uniformly random indexes (every residue of the index modulo small powers of two occurs).
+func layoutComb(r *rng, n, k int) (idx []int32, w []uint64) {
+	k = max(1, min(k, n/2))
+	seen := map[int32]bool{}
+	for len(seen) < k {
+		seen[int32(r.n(n))] = true
+	}
+	for x := range seen {
+		idx = append(idx, x)
+	}
+	sort.Slice(idx, func(a, b int) bool { return idx[a] < idx[b] })
+	for range idx {
+		w = append(w, r.word())
+	}
+	return idx, w
+}
+
+func expand(n int, idx []int32, w []uint64) vk.Words {
+	out := make(vk.Words, n)
+	for k, x := range idx {
+		out[x] = w[k]
+	}
+	return out
+}
+
+func mkRange(i, end, n int64) [2]int32 {
+	top := min(64*n, math.MaxInt32)
+	i = max(0, min(i, top))
+	end = max(i, min(end, top))
+	return [2]int32{int32(i), int32(end)}
+}
+
+// anchoredRanges: for (at most maxPairs) pairs of neighbouring non-zero words a < b - the start and the end of the
+// bitmap count as such - ranges that make the scan walk the zero run between them: from inside a to inside b, the
+// run exactly, from the middle of the run into b, from a to the middle of the run.
+func anchoredRanges(r *rng, set []int32, n, maxPairs int) [][2]int32 {
+	bounds := make([]int64, 0, len(set)+2)
+	bounds = append(bounds, -1)
+	for _, x := range set {
+		bounds = append(bounds, int64(x))
+	}
+	bounds = append(bounds, int64(n))
+	pairs := len(bounds) - 1
+	var rs [][2]int32
+	N := int64(n)
+	for p := 0; p < pairs; p++ {
+		if pairs > maxPairs && r.n(pairs) >= maxPairs {
+			continue
+		}
+		a, b := bounds[p], bounds[p+1]
+		lo, hi, gap := 64*(a+1), 64*b, b-a-1
+		rs = append(rs, mkRange(lo-int64(r.n(64)), hi+1+int64(r.n(64)), N))
+		if gap == 0 {
+			continue
+		}
+		mid := func() int64 { return lo + 64*int64(r.n(int(gap))) + int64(r.n(64)) }
+		rs = append(rs, mkRange(lo, hi, N), mkRange(mid(), hi+64, N), mkRange(lo-64, mid()+1, N))
+		switch r.n(4) {
+		case 0:
+			rs = append(rs, mkRange(lo, hi+64, N))
+		case 1:
+			rs = append(rs, mkRange(lo-1, hi+1, N))
+		case 2:
+			rs = append(rs, mkRange(lo+64*int64(r.logU(int(gap))-1), hi+int64(r.n(65)), N)) // start a log-uniform number of words into the run
+		}
+	}
+	return rs
+}
+
+// randomRanges: lengths log-uniform in words (plus a random number of bits), positions uniform, near the start or near the end.
+func randomRanges(r *rng, n, count int) [][2]int32 {
+	N := int64(n)
+	nbits := 64 * N
+	rs := make([][2]int32, 0, count)
+	for k := 0; k < count; k++ {
+		ln := 64*int64(r.logU(n)-1) + int64(r.n(130))
+		ln = min(ln, nbits)
+		var i int64
+		switch r.n(3) {
+		case 0:
+			i = int64(r.u64() % uint64(nbits-ln+1))
+		case 1:
+			i = 64*int64(r.logU(n)-1) + int64(r.n(64))
+		default:
+			i = nbits - ln - 64*int64(r.logU(n)-1) - int64(r.n(64))
+		}
+		i = max(0, min(i, nbits-ln))
+		end := i + ln
+		if r.n(4) == 0 {
+			i &^= 63
+		}
+		if r.n(4) == 0 {
+			end = (end + 63) &^ 63
+		}
+		rs = append(rs, mkRange(i, end, N))
+	}
+	return rs
+}
+
+// explicitCase: a bitmap of n words written out in full.
+func explicitCase(r *rng, n int, comb bool, maxPairs, nRandom int) Case {
+	var idx []int32
+	var w []uint64
+	style := "long-runs"
+	if comb {
+		idx, w = layoutComb(r, n, 16+r.n(49))
+		style = "long-comb"
+	} else {
+		idx, w = layoutRuns(r, n, n)
+	}
+	rs := append(anchoredRanges(r, idx, n, maxPairs), randomRanges(r, n, nRandom)...)
+	return Case{Words: expand(n, idx, w), Style: style, Ranges: rs}
+}
+
+// sparseCase: a bitmap of n words as a sparse description, with one or two foreign words right behind its end.
+func sparseCase(r *rng, n int, comb bool, maxPairs, nRandom int) Case {
+	var idx []int32
+	var w []uint64
+	style := "sparse-runs"
+	if comb {
+		idx, w = layoutComb(r, n, 16+r.n(241))
+		style = "sparse-comb"
+	} else {
+		idx, w = layoutRuns(r, n, 96)
+	}
+	rs := append(anchoredRanges(r, idx, n, maxPairs), randomRanges(r, n, nRandom)...)
+	for d := 0; d < 2 && n+d < gen.MaxWords; d++ { // not part of the bitmap
+		if d == 0 || r.n(2) == 0 {
+			idx, w = append(idx, int32(n+d)), append(w, r.word()|1)
+		}
+	}
+	return Case{Sparse: &Sparse{N: n, Idx: idx, W: w}, Style: style, Ranges: rs}
+}
+
+// drawLogSize draws a word count whose octave is uniform between 2^loOct and 2^hiOct (exclusive).
+func drawLogSize(t *rapid.T, loOct, hiOct int, label string) int {
+	o := loOct + gen.Uniform(t, hiOct-loOct, label+".octave")
+	return 1<<o + gen.Uniform(t, 1<<o, label)
+}
+
+func genLong(t *rapid.T) Case {
+	maxN := vk.Pick(2048, 8192)
+	n := max(13, min(drawLogSize(t, 3, bits.Len(uint(maxN))-1, "nwords"), maxN))
+	r := &rng{x: gen.U64(t, "key")}
+	switch st := gen.Uniform(t, 8, "longstyle"); {
+	case st < 3:
+		return explicitCase(r, n, false, 12, 16)
+	case st < 5:
+		return explicitCase(r, n, true, 12, 16)
+	default: // every word drawn alike (uniform / sparse / dense / islands / ones / one bit per word)
+		spec := gen.BigSpec{N: n, Key: r.u64(), Style: gen.Uniform(t, 6, "bigstyle")}
+		w := spec.Expand()
+		var set []int32
+		for k, x := range w {
+			if x != 0 {
+				set = append(set, int32(k))
+			}
+		}
+		rs := append(anchoredRanges(r, set, n, 8), randomRanges(r, n, 32)...)
+		return Case{Words: w, Style: fmt.Sprintf("long-bigspec-%d", spec.Style), Ranges: rs}
+	}
+}
+
+func genSparse(t *rapid.T) Case {
+	n := drawLogSize(t, 12, vk.Pick(19, 23), "nwords")
+	r := &rng{x: gen.U64(t, "key")}
+	return sparseCase(r, n, gen.Chance(t, 1, 3, "comb"), 10, 12)
+}
+
 func genCase(t *rapid.T) Case {
+	switch sc := gen.Uniform(t, 20, "sizeclass"); {
+	case sc < 2:
+		return genLong(t)
+	case sc < 3:
+		return genSparse(t)
+	}
 	maxWords := vk.Pick(12, 300)
 	if gen.Chance(t, 1, 30, "long") {
 		maxWords = 1100 // long runs of zero words
@@ -285,24 +730,103 @@ func TestProp(t *testing.T) { checker.Prop(t, genCase) }
 
 func FuzzProp(f *testing.F) { checker.Fuzz(f, genCase) }
 
+// oracleSelfTest: the list oracle must agree with the bit-by-bit one (a disagreement is a harness defect: exit 2).
+func oracleSelfTest(t *testing.T) {
+	r := &rng{x: 0xc13}
+	for round := 0; round < 300; round++ {
+		n := 1 + r.n(5)
+		w := make([]uint64, n)
+		for k := range w {
+			if r.n(3) > 0 {
+				w[k] = r.word()
+			}
+		}
+		nv, ol := naive(w), onesOfWords(w)
+		sp := &Sparse{N: n}
+		for k, x := range w {
+			if x != 0 || r.n(4) == 0 {
+				sp.Idx, sp.W = append(sp.Idx, int32(k)), append(sp.W, x)
+			}
+		}
+		sp.Idx, sp.W = append(sp.Idx, int32(n)), append(sp.W, ^uint64(0)) // foreign word behind the end
+		so := sp.ones()
+		nb := int64(64 * n)
+		for q := 0; q < 400; q++ {
+			i, end := int64(r.n(int(nb)+1)), int64(r.n(int(nb)+1))
+			if q%8 == 0 {
+				i, end = i&^63, (end+63)&^63
+			}
+			if i > end {
+				i, end = end, i
+			}
+			a, b, c := nv.next(i, end), ol.next(i, end), so.next(i, end)
+			d, e, f := nv.prev(i, end), ol.prev(i, end), so.prev(i, end)
+			if a != b || a != c || d != e || d != f || !sp.valid() {
+				vk.Infra(fmt.Sprintf("C13 oracles disagree on %x [%d,%d): next %d/%d/%d prev %d/%d/%d", w, i, end, a, b, c, d, e, f))
+				t.Fatalf("oracle self-test failed")
+			}
+		}
+	}
+}
+
+// sweepSizes: 2^k-1, 2^k, 2^k+1 and some pseudo-random sizes inside the octave [2^k, 2^(k+1)); cap is the largest size allowed.
+func sweepSizes(k, nRandom, cap int) (sizes []int, random []bool) {
+	for _, n := range []int{1<<k - 1, 1 << k, 1<<k + 1} {
+		if n <= cap {
+			sizes, random = append(sizes, n), append(random, false)
+		}
+	}
+	for j := 0; j < nRandom; j++ {
+		n := 1<<k + int(vk.Mix(vk.Seed()*0x9e3779b1+uint64(k)<<8+uint64(j))%uint64(1<<k))
+		if n <= cap {
+			sizes, random = append(sizes, n), append(random, true)
+		}
+	}
+	return
+}
+
+func sweepKey(n, j int) uint64 { return vk.Mix(vk.Seed()*1000003 + uint64(n)*31 + uint64(j)) }
+
+// sparseSweep: every octave of the word count from 2^kLo to 2^kHi (sparse descriptions on the shared array).
+func sparseSweep(t *testing.T, kLo, kHi int) {
+	for k := kLo; k <= kHi; k++ {
+		nRandom := vk.Pick(3, 8)
+		if k >= 21 {
+			nRandom = vk.Pick(2, 4)
+		}
+		sizes, random := sweepSizes(k, nRandom, gen.MaxWords)
+		for j, n := range sizes {
+			c := sparseCase(&rng{x: sweepKey(n, j)}, n, j%2 == 1, 1<<20, vk.Pick(24, 64))
+			c.Style = "sweep-" + c.Style
+			if random[j] && k <= 14 {
+				vk.ProcsSweep(func() { checker.Run(t, c) })
+			} else {
+				checker.Run(t, c)
+			}
+		}
+	}
+}
+
 func TestGrid(t *testing.T) {
 	vk.SetPhase("grid")
+	oracleSelfTest(t)
 	pal := []uint64{0, 1, 1 << 31, 1 << 63, 1 | 1<<63, ^uint64(0)}
 	var evals, nontriv int64
 	for a := range pal {
 		for b := range pal {
 			for c := range pal {
 				w := []uint64{pal[a], pal[b], pal[c]}
+				o, sum := naive(w), vk.SumU64(w)
 				for i := int32(0); i <= 192; i++ {
 					for end := i; end <= 192; end++ {
 						evals++
-						if rangeNontrivial(w, i, end) {
+						if rangeNontrivial(o, i, end) {
 							nontriv++
 						}
 						if (i+end)&63 == 0 {
 							checker.Remember(Case{Words: w, Style: "grid", Ranges: [][2]int32{{i, end}}})
 						}
-						if f := checkRange(w, i, end); f != nil {
+						if f := checkRange(w, o, sum, i, end); f != nil {
 							fc := Case{Words: w, Style: "grid", Ranges: [][2]int32{{i, end}}}
 							if g := checker.Eval(fc); g == nil {
 								vk.Infra("grid failure not reproduced by the per-case check")
@@ -311,6 +835,20 @@ func TestGrid(t *testing.T) {
 						}
 					}
 				}
+			}
+		}
+	}
+	// size sweep, bitmaps written out in full: every octave from 4 to 2^13 words, content and ranges that make the
+	// scan decide AT that size (zero runs up to the whole bitmap, ones in the last word, ranges anchored on the runs)
+	for k := 2; k <= 13; k++ {
+		sizes, random := sweepSizes(k, vk.Pick(4, 12), 1<<14)
+		for j, n := range sizes {
+			c := explicitCase(&rng{x: sweepKey(n, j)}, n, j%2 == 1, 24, vk.Pick(32, 96))
+			c.Style = "sweep-" + c.Style
+			if random[j] && k >= 7 { // sizes a chunked scan would cut differently for every scheduler width
+				vk.ProcsSweep(func() { checker.Run(t, c) })
+			} else {
+				checker.Run(t, c)
 			}
 		}
 	}
@@ -334,6 +872,8 @@ func TestGrid(t *testing.T) {
 			checker.Run(t, Case{Words: w, Style: "grid-very-long", Ranges: rs})
 		}
 	}
+	// the sweep continues with sparsely described bitmaps (2^12 .. 2^20 words here, the rest in TestLast)
+	sparseSweep(t, 12, 20)
 	vk.CountConstructed(evals, nontriv, "grid-range")
 	vk.AddSample(map[string]any{"grid": "216 three-word bitmaps x all (i,end)", "example": map[string]any{"words": []string{"8000000000000000", "0", "1"}, "i": 64, "end": 130, "NextOne": bitmap.NextOne([]uint64{1 << 63, 0, 1}, 64, 130), "PrevOne": bitmap.PrevOne([]uint64{1 << 63, 0, 1}, 64, 130)}})
 	vk.MarkExhaustive("all 216 three-word bitmaps over a 6-word palette x all 0<=i<=end<=192")
@@ -343,6 +883,7 @@ func TestGrid(t *testing.T) {
 // what they leave behind in the library cannot mask anything the ordinary cases would have met.
 func TestLast(t *testing.T) {
 	vk.SetPhase("last")
+	sparseSweep(t, 21, 25)                 // 2^21 .. 2^25 words: ones at word indexes all over the bitmap, zero runs up to its whole length
 	for v := 0; v < gen.MaxVariants; v++ { // exactly 2^31 bits: the largest positions an int32 holds
 		checker.Run(t, Case{Max: v + 1, Style: "maximum", Ranges: maxRanges(v)})
 	}
